@@ -387,4 +387,121 @@ theorem lastSome_eq_some {vs : List (Option Rat)} {x : Rat} (h : lastSome vs = s
           · exact ht
           · exact ihu hu v hv
 
+/-! ### the stable sort keeps valued rows before valueless rows of the same offset -/
+
+/-- recursive form of `ValuedFirst` -/
+def VF : List Row → Prop
+  | [] => True
+  | (t, none) :: rest => (∀ r ∈ rest, r.1 = t → r.2 = none) ∧ VF rest
+  | (_, some _) :: rest => VF rest
+
+theorem VF_tail {h : Row} {rest : List Row} (hv : VF (h :: rest)) : VF rest := by
+  obtain ⟨t, v⟩ := h
+  cases v with
+  | none => exact hv.2
+  | some _ => exact hv
+
+theorem VF_valuedFirst (l : List Row) (hv : VF l) : ValuedFirst l := by
+  induction l with
+  | nil => intro a b t h; simp at h
+  | cons h rest ih =>
+    intro a b t hl r hr hrt
+    cases a with
+    | nil =>
+      simp only [List.nil_append, List.cons.injEq] at hl
+      obtain ⟨rfl, rfl⟩ := hl
+      exact hv.1 r hr hrt
+    | cons h' a' =>
+      simp only [List.cons_append, List.cons.injEq] at hl
+      exact ih (VF_tail hv) a' b t hl.2 r hr hrt
+
+theorem VF_of_all_none (l : List Row) (h : ∀ r ∈ l, r.2 = none) : VF l := by
+  induction l with
+  | nil => trivial
+  | cons x rest ih =>
+    obtain ⟨t, v⟩ := x
+    have hv : v = none := h (t, v) (by simp)
+    subst hv
+    exact ⟨fun r hr _ => h r (List.mem_cons_of_mem _ hr), ih (fun r hr => h r (List.mem_cons_of_mem _ hr))⟩
+
+theorem VF_insertBy (t : Rat) (b : Rat) (s : List Row) (hv : VF s) :
+    VF (insertBy (fun a b : Row => decide (a.1 ≤ b.1)) (t, some b) s) := by
+  induction s with
+  | nil => simp [insertBy, VF]
+  | cons y ys ih =>
+    unfold insertBy
+    split
+    · exact hv
+    · rename_i hle
+      obtain ⟨ty, vy⟩ := y
+      cases vy with
+      | some _ => exact ih hv
+      | none =>
+        refine ⟨?_, ih hv.2⟩
+        intro r hr hrt
+        rcases List.mem_cons.mp ((insertBy_perm _ _ ys).mem_iff.mp hr) with rfl | hr
+        · simp only [decide_eq_true_eq] at hle
+          exact absurd (le_of_eq hrt) hle
+        · exact hv.1 r hr hrt
+
+theorem VF_sortRow (A M : List Row) (hA : ∀ r ∈ A, r.2 ≠ none) (hM : ∀ r ∈ M, r.2 = none) :
+    VF (sortRow (A ++ M)) := by
+  induction A with
+  | nil =>
+    apply VF_of_all_none
+    intro r hr
+    exact hM r ((isort_perm _ _).mem_iff.mp hr)
+  | cons x A' ih =>
+    obtain ⟨t, v⟩ := x
+    cases v with
+    | none => exact absurd rfl (hA (t, none) (by simp))
+    | some b =>
+      have := ih (fun r hr => hA r (List.mem_cons_of_mem _ hr))
+      exact VF_insertBy t b _ this
+
+theorem sortRow_sorted (l : List Row) : (sortRow l).Pairwise (fun a b => a.1 ≤ b.1) := by
+  have := isort_pairwise (fun a b : Row => decide (a.1 ≤ b.1))
+    (by intro a b; simp only [decide_eq_true_eq]; exact le_total _ _)
+    (by intro a b c; simp only [decide_eq_true_eq]; exact le_trans) l
+  simpa [sortRow] using this
+
+/-! ### bfill, drop_duplicates -/
+
+theorem mem_bfill {l : List Row} {x : Row} (hx : x ∈ bfill l) : x ∈ l ∨ (x.1, none) ∈ l := by
+  unfold bfill at hx
+  rw [List.mem_reverse] at hx
+  obtain ⟨a, r, b, hl, rfl⟩ := mem_ffillAux l.reverse [] x (by simpa [ffill, lastSome] using hx)
+  have hr : r ∈ l := by
+    have : r ∈ l.reverse := by rw [hl]; simp
+    exact List.mem_reverse.mp this
+  obtain ⟨t, v⟩ := r
+  simp only [List.nil_append, List.map_append, List.map_cons, List.map_nil, lastSome_snoc]
+  cases v with
+  | some y => left; exact hr
+  | none => right; exact hr
+
+theorem mem_dropDup {l : List Row} {x : Row} (hx : x ∈ dropDup l) : x ∈ l := by
+  induction l with
+  | nil => simp [dropDup] at hx
+  | cons r t ih =>
+    simp only [dropDup] at hx
+    rcases List.mem_cons.mp hx with rfl | hx
+    · simp
+    · exact List.mem_cons_of_mem _ (ih (List.mem_filter.mp hx).1)
+
+theorem lastSome_eq_none {vs : List (Option Rat)} (h : lastSome vs = none) : ∀ v ∈ vs, v = none := by
+  induction vs with
+  | nil => simp
+  | cons a t ih =>
+    simp only [lastSome] at h
+    cases ht : lastSome t with
+    | some y => rw [ht] at h; simp at h
+    | none =>
+      rw [ht] at h
+      simp only at h
+      intro v hv
+      rcases List.mem_cons.mp hv with rfl | hv
+      · exact h
+      · exact ih ht v hv
+
 end Reamber.Analysis
